@@ -90,7 +90,9 @@ def allclose(a, b, rtol=1e-05, atol=1e-08, **k):
     if not conj:
         return True
     t = z3.And(*conj)
-    if ctx().config.get("gate", "assume") == "assume":
+    # only the symmetry test inside assert_valid_covariance is a *gate*; any other allclose in the code under test
+    # is ordinary control flow and forks
+    if ctx().config.get("gate", "assume") == "assume" and core._at_site([("assert_valid_covariance", "allclose")]):
         ctx().assume(t, why="allclose gate assumed to pass")
         return True
     return SymBool(t)
